@@ -243,12 +243,125 @@ def observe_C03(w):
     return [F.compute_checksum(data, w["start"], w["length"]), f.checksum, bool(f.is_good)]
 
 
+# ------------------------------------------------------------------------------------------------ P1 (C04, C05, C16-P1)
+def p1_run(chunks):
+    from han import dlde
+    r = dlde.ModeDReader()
+    out = []
+    for ch in chunks:
+        out += r.read(bytes.fromhex(ch))
+    return r, out
+
+
+def _safe(fn):
+    try:
+        return fn()
+    except Exception as e:
+        return "exc:" + type(e).__name__
+
+
+def p1_obs(readouts):
+    return [[H(r.as_bytes), _safe(lambda: bool(r.is_valid)), _safe(lambda: H(r.payload))] for r in readouts]
+
+
+def p1_readouts(w):
+    from han import dlde
+    if "readout" in w:
+        return [dlde.DataReadout(bytes.fromhex(w["readout"]))]
+    return p1_run(w["chunks"])[1]
+
+
+def observe_C04(w):
+    try:
+        return p1_obs(p1_readouts(w))
+    except ValueError as e:
+        return "ctor:" + type(e).__name__
+
+
+def c04_readout_checks(r):
+    from . import ref_p1
+    raw = list(r.as_bytes)
+    try:
+        valid = bool(r.is_valid)
+    except Exception:
+        return None                     # an escaping exception is C14's subject; nothing is "reported valid" here
+    end, lf = ref_p1.find(raw, 0x21), ref_p1.find(raw, 10)
+    ident = ref_p1.ident_ok(raw[:lf + 1]) if lf >= 0 else False
+    cs = ref_p1.checksum_field(raw, end)
+    crc = ref.crc16_a001(raw[:end + 1])
+    val = None if not isinstance(cs, list) else ((cs[0] * 16 + cs[1]) * 16 + cs[2]) * 16 + cs[3]
+    if valid:
+        if not ident:
+            return ("valid-with-malformed-identification", f"readout {H(raw)} is_valid=True")
+        if val is not None and val != crc:
+            return ("valid-with-wrong-checksum", f"readout {H(raw)} is_valid=True, transmitted {val:04X}, CRC16 of '/'..'!' is {crc:04X}")
+        exp = bytes(raw[lf + 1:end]) if lf < end else b""
+        if r.payload != exp:
+            return ("payload-differs", f"readout {H(raw)} payload {H(r.payload)} expected {H(exp)}")
+    else:
+        if ident and all(c < 128 for c in raw) and val is not None and val == crc and lf < end:
+            return ("correct-readout-reported-invalid", f"readout {H(raw)} is_valid=False although ident, ASCII and checksum {crc:04X} are fine")
+    return None
+
+
+def judge_C04(w):
+    try:
+        rs = p1_readouts(w)
+    except ValueError:
+        return None                         # constructor refuses bytes without '/' or '!': no readout object, nothing claimed
+    except Exception as e:
+        return {"signature": "exception:" + exc_signature(e), "detail": repr(e)}
+    for r in rs:
+        v = c04_readout_checks(r)
+        if v:
+            return {"signature": v[0], "detail": v[1]}
+    return None
+
+
+def judge_p1_expect(w):
+    """C05 / C16-P1: w["expect"] = readouts (hex) that must be delivered byte-identical and valid, in order; exact => nothing else."""
+    try:
+        _, rs = p1_run(w["chunks"])
+        got = [(H(r.as_bytes), bool(r.is_valid)) for r in rs]
+    except Exception as e:
+        return {"signature": "exception:" + exc_signature(e), "detail": repr(e)}
+    exp = w["expect"]
+    short = lambda xs: [x[:24] + ".." if isinstance(x, str) and len(x) > 26 else x for x in xs]
+    ctx = f"{len(w['chunks'])} chunks (sizes {[len(c) // 2 for c in w['chunks']][:12]}{'...' if len(w['chunks']) > 12 else ''}), {len(got)} readouts returned, {sum(1 for g in got if g[1])} valid, {len(exp)} expected"
+    if w.get("exact"):
+        if [g[0] for g in got] != exp:
+            k = next((i for i, (a, b) in enumerate(zip([g[0] for g in got] + [None] * len(exp), exp)) if a != b), len(exp))
+            return {"signature": "readouts-differ-from-sent", "detail": f"first difference at readout #{k}; {ctx}"}
+        if not all(g[1] for g in got):
+            k = [g[1] for g in got].index(False)
+            return {"signature": "well-formed-readout-reported-invalid", "detail": f"readout #{k} invalid; {ctx}"}
+    else:
+        idx = 0
+        for n, e in enumerate(exp):
+            while idx < len(got) and not (got[idx][0] == e and got[idx][1]):
+                idx += 1
+            if idx == len(got):
+                return {"signature": "readout-after-noise-not-delivered", "detail": f"expected readout #{n} {e[:40]}.. valid; {ctx}"}
+            idx += 1
+    return None
+
+
+def judge_C05(w):
+    return judge_p1_expect(w)
+
+
+def observe_p1(w):
+    return p1_obs(p1_run(w["chunks"])[1])
+
+
 # ------------------------------------------------------------------------------------------------ dispatch
 def observe(prop, w):
     fn = globals().get("observe_" + prop + ("_" + w["sub"] if w.get("sub") else ""))
     if fn is None:
         if w.get("kind") == "hdlc":
             return observe_hdlc(w)
+        if w.get("kind") == "p1":
+            return observe_p1(w)
         raise KeyError("no observe for " + prop)
     return fn(w)
 
